@@ -52,6 +52,7 @@ def regen(targets):
     sys.path.insert(0, os.path.join(ROOT, "tools"))
     import py2v
     res = {}
+    os.makedirs(os.path.join(COQ, "theories", "Gen"), exist_ok=True)      # generated files are not committed
     for t in targets:
         out = os.path.join(COQ, "theories", "Gen", t + ".v")
         try:
